@@ -39,7 +39,7 @@ class Witnesses:
         failed = set()
         other = []
         for line in result.stderr.splitlines():
-            if 'error' not in line:
+            if 'error' not in line or re.match(r'^\d+ errors? generated', line.strip()):
                 continue
             m = re.search(r'W:(\d+)', line)
             if m and ('static_assert' in line or 'static assertion' in line):
